@@ -273,6 +273,36 @@ sys.stdout.buffer.write(b"RESULT:" + (r or b""))
 '''
 
 
+SO_SESSION = r'''
+import ctypes, sys, json
+lib = ctypes.CDLL(sys.argv[1])
+lib.FormatPacketDslExport.restype = ctypes.c_char_p
+lib.FormatPacketDslExport.argtypes = [ctypes.c_char_p]
+texts = json.load(open(sys.argv[2]))
+for i, t in enumerate(texts):
+    r = lib.FormatPacketDslExport(t.encode("utf-8", "surrogatepass"))
+    sys.stdout.write("CALL %d %d\\n" % (i, len(r or b"")))
+    sys.stdout.flush()
+print("SESSION-END")
+'''
+
+
+def so_session(so, texts, d):
+    """ONE host process calling the export many times (an editor plug-in): every call must return.
+    -> number of calls that returned, or None when all did"""
+    f = os.path.join(d, "session.json")
+    with open(f, "w") as fh:
+        json.dump(texts, fh)
+    try:
+        p = subprocess.run(["python3", "-c", SO_SESSION, so, f], capture_output=True, timeout=600)
+        out = p.stdout.decode("utf-8", "replace")
+    except subprocess.TimeoutExpired as e:
+        out = (e.stdout or b"").decode("utf-8", "replace")
+    if "SESSION-END" in out:
+        return None
+    return out.count("CALL ")
+
+
 def so_format(so, text_bytes, d):
     f = os.path.join(d, "in.dsl")
     with open(f, "wb") as fh:
@@ -387,6 +417,18 @@ def run_c11(ctx):
                 ctx.count("so_runs")
                 if "crash" in r or "hang" in r:
                     ctx.finding("entry/so-format/abort", "FormatPacketDslExport kills the host process", {"text": t, "result": r})
+        if so:
+            # the same library inside ONE long-lived host: valid and ill-formed texts alternating, many calls
+            session = []
+            bad_texts = [t for k, t in items if isinstance(t, str) and k.startswith(("mutated", "truncated", "fixed"))][:30]
+            good = "root packet A {\n    u8 x,\n}\n"
+            for t in bad_texts:
+                session += [t, good]
+            ctx.count("so_session_calls", len(session))
+            returned = so_session(so, session, d)
+            if returned is not None:
+                ctx.finding("entry/so-format/session-hang", "FormatPacketDslExport stops returning after %d calls in one host process (%d texts sent, ill-formed and "
+                            "well-formed alternating)" % (returned, len(session)), {"texts": session[:returned + 1][-6:], "calls_returned": returned})
         if so is None:
             ctx.assumptions.append("libpacketdsl.so could not be built in this run: the C export was not exercised")
     finally:
@@ -445,6 +487,10 @@ def run_c12(ctx):
             r = faults.inject(t, cls, rng)
             if r:
                 items.append((cls, r[0], r[1]))
+                if rng.random() < 0.25:
+                    # the same ill-formed text as a file with CRLF line ends (and, sometimes, blank lines on top): same line numbers
+                    k = rng.choice([0, 0, 2])
+                    items.append((cls, "\r\n" * k + r[0].replace("\n", "\r\n"), r[1] + k))
     # documented option values, one at a time
     for k, vals in (("LittleEndian", ["true", "false"]), ("StringPrefixLenType", ["u8", "u16", "u32", "u64"]), ("ArrayPrefixLenType", ["u8", "u16", "u32", "u64"]),
                     ("FixedStringPadFromLeft", ["true", "false"]), ("FixedStringPadChar", ["'0'", "' '", "'\\x00'"]),
